@@ -42,7 +42,9 @@ pub enum SWhat {
     Unit { ty: usize, unit: usize },
     /// several values of one type in one container on one serializer:
     /// form 0 = Vec<Q>, 1 = (Q, Q), 2 = (Q, Unit), 3 = Option<Q>, 4 = map name -> Q,
-    /// 5 = a user struct with the value flattened into it, 6 = a user struct with value fields and Vec<Vec<Q>>
+    /// 5 = a user struct with the value flattened into it, 6 = a user struct with value fields and Vec<Vec<Q>>,
+    /// 7 = a value one level below a flattened struct, 8 = an untagged enum of value / Vec of values,
+    /// 9 = a flattened map name -> Q (in 7-9 serde buffers the input in its private Content tree)
     Group { ty: usize, items: Vec<(usize, Amt)>, form: usize },
 }
 
@@ -69,6 +71,10 @@ pub struct SOp {
     /// exit (last operation of a thread only, otherwise like 0)
     #[serde(default)]
     pub mode: u8,
+    /// tree route only: the simulator's serializer and deserializer present themselves as a
+    /// self-describing *binary* format (`is_human_readable() == false`)
+    #[serde(default)]
+    pub binary: bool,
 }
 
 #[derive(Clone, Debug, PartialEq, Eq, Hash, Serialize, Deserialize)]
@@ -181,11 +187,20 @@ pub fn generate_with(seed: u64, lite: bool) -> SPlan {
     } else {
         1 + r.below(4)
     };
+    // now and then a throng: 36-63 caller threads, the schedule picks among all of them
+    // at every seam, so that dozens of operations are in flight at once
+    // (not in the instrumented configuration: with a seam at every function entry a hundred parked
+    // threads make the harness itself so slow that its no-progress limit trips - a false alarm
+    // of the harness seen once on the unchanged tree, C17 f64-fnseam, and removed this way)
+    let throng = !lite && !long && r.chance(1, 1500) && !cfg!(feature = "fn-seam");
+    let n_threads = if throng { 36 + r.below(28) } else { n_threads };
     let mut pool = Vec::new();
     let mut threads = Vec::new();
     for _ in 0..n_threads {
         let n_ops = if long {
             260 + r.below(300)
+        } else if throng {
+            1 + r.below(2)
         } else if lite {
             2
         } else {
@@ -206,7 +221,8 @@ pub fn generate_with(seed: u64, lite: bool) -> SPlan {
             let io_seed = if sw_io && route == Route::JsonStream { r.next() | 1 } else { 0 };
             let from_model = matches!(what, SWhat::Unit { .. }) && r.chance(1, 4);
             let mode = if r.chance(1, 40) { 1 } else { 0 };
-            ops.push(SOp { what, route, ser_fault, de_fault, nested, io_seed, from_model, mode });
+            let binary = route == Route::Node && r.chance(1, 3);
+            ops.push(SOp { what, route, ser_fault, de_fault, nested, io_seed, from_model, mode, binary });
         }
         if !lite && r.chance(1, 12) {
             if let Some(last) = ops.last_mut() {
@@ -216,7 +232,17 @@ pub fn generate_with(seed: u64, lite: bool) -> SPlan {
         threads.push(ops);
     }
     let n_sched = 8 + r.below(56);
-    let sched = (0..n_sched).map(|_| if !sw_switch || r.chance(1, 2) { 0 } else { 1 + r.below(8) as u8 }).collect();
+    let sched = (0..n_sched)
+        .map(|_| {
+            if throng {
+                1 + r.below(255) as u8
+            } else if !sw_switch || r.chance(1, 2) {
+                0
+            } else {
+                1 + r.below(8) as u8
+            }
+        })
+        .collect();
     let alloc_seams = n_threads > 1 && r.chance(1, 2);
     SPlan { seed, backend: amt::BACKEND.to_string(), threads, sched, alloc_seams, lean: false, repeat: 0 }
 }
@@ -260,7 +286,7 @@ pub fn systematic(index: u64) -> SPlan {
     }
     let other = (ty + 1) % STABLE.len();
     let q = |ty, unit, milli| SWhat::Qty { ty, unit, amount: amt::from_milli(milli) };
-    let op = |what, route| SOp { what, route, ser_fault: None, de_fault: None, nested: None, io_seed: 0, from_model: false, mode: 0 };
+    let op = |what, route| SOp { what, route, ser_fault: None, de_fault: None, nested: None, io_seed: 0, from_model: false, mode: 0, binary: false };
     let first_what = if first_is_unit { SWhat::Unit { ty, unit } } else { q(ty, unit, -12500) };
     let probes = vec![
         op(q(ty, unit, 3250), Route::JsonString),
@@ -333,7 +359,7 @@ pub fn soak(index: u64, ops: u64) -> SPlan {
             x if x % 2 == 0 => Route::JsonString,
             _ => Route::JsonValue,
         };
-        v.push(SOp { what, route, ser_fault: None, de_fault: None, nested: None, io_seed: 0, from_model: false, mode: if k % 512 == 77 { 1 } else { 0 } });
+        v.push(SOp { what, route, ser_fault: None, de_fault: None, nested: None, io_seed: 0, from_model: false, mode: if k % 512 == 77 { 1 } else { 0 }, binary: route == Route::Node && k % 3 == 1 });
     }
     let repeat = (ops + SOAK_CYCLE as u64 - 1) / SOAK_CYCLE as u64;
     SPlan { seed: index, backend: amt::BACKEND.to_string(), threads: vec![v], sched: vec![0], alloc_seams: false, lean: true, repeat }
